@@ -561,6 +561,12 @@ func (e *env) registryOps(st Step) (res Result) {
 	if rounds == 0 {
 		rounds = 2000
 	}
+	var builtins []any // the services registered at start-up (phase C clears the registry; they are put back)
+	for _, n := range []string{"CRC16", "CRC32", "SSE_BIN", "SZSE_BIN", "BJSE_BIN"} {
+		if v, ok := codec.Get(n); ok {
+			builtins = append(builtins, v)
+		}
+	}
 	for r := 0; r < rounds; r++ {
 		name := fmt.Sprintf("VF_%d", r)
 		svcs := make([]*namedSvc, st.Threads)
@@ -625,6 +631,43 @@ func (e *env) registryOps(st Step) (res Result) {
 			wg.Wait()
 			codec.Remove(name)
 			anomalies += int(bad)
+		}
+		if r%8 == 4 {
+			// phase C - Clear overlaps registrations, look-ups and removals (material for the race detector;
+			// afterwards a registration must be visible and the registry usable)
+			start3 := make(chan struct{})
+			for t := 0; t < st.Threads; t++ {
+				wg.Add(1)
+				go func(t int) {
+					defer wg.Done()
+					<-start3
+					for k := 0; k < 4; k++ {
+						switch (t + k) % 4 {
+						case 0:
+							codec.Clear()
+						case 1:
+							codec.Registry(svcs[t])
+						case 2:
+							codec.Get(name)
+						case 3:
+							codec.Remove(name)
+						}
+					}
+				}(t)
+			}
+			close(start3)
+			wg.Wait()
+			codec.Remove(name)
+			if !codec.Registry(svcs[0]) {
+				anomalies++
+			}
+			if v, ok := codec.Get(name); !ok || v != any(svcs[0]) {
+				anomalies++
+			}
+			codec.Remove(name)
+			for _, b := range builtins {
+				codec.Registry(b)
+			}
 		}
 	}
 	res.Ret = map[string]any{"rounds": rounds, "anomalies": anomalies}
